@@ -136,6 +136,16 @@ def main(argv):
     thorough = chk.tier == "thorough"
     chk.translate(["topic"])
     chk.coq("Properties_C15.v")
+    # store-buffer half: the publish/close skeleton with the fences as regenerated from the source; when a fence
+    # was weakened the search prints the lost-wake-up execution of the store-buffer machine
+    defs = ("Require Import Verif.Gen.Gen_topic.\n"
+            "Definition pf : bool := match sites_publish_n with [_; _; _; _; (KFence, o, _)] => is_seq_cst o | _ => false end.\n"
+            "Definition cf : bool := match sites_close with [_; (KFence, o, _)] => is_seq_cst o | _ => false end.")
+    chk.wm_litmus("publish-fence", defs, "batch_wake_safe pf", "[waker pf; waiter]", "lost_wakeup",
+                  "publish_n's fence before wakeup_waiters is not seq_cst: a consumer can park while the publisher "
+                  "misses its waiter bit")
+    chk.wm_litmus("close-fence", defs, "batch_wake_safe cf", "[waker cf; waiter]", "lost_wakeup",
+                  "close()'s fence before wakeup_waiters is not seq_cst: a consumer can park and never see the end")
     model = chk.extract("tt", "Extract_tt.v", "tt_driver.ml", explorer=True)
     impl = chk.build_cpp("c15_topic", [os.path.join(VERIF, "harness/conc/c15_topic.cpp"),
                                        os.path.join(VERIF, "harness/shim/dsched.cpp")], ldflags=["-ldl"])
